@@ -149,3 +149,77 @@ M.KIND_METHODS.update({
     ("CitRe", "match"): km_citre_match,
     ("CitMatch", "group"): km_citmatch_group,
 })
+
+
+# ---------------------------------------------------------------------- indexed model (for _ref_citations: the
+# reference list grows across iterations, so the pointwise model does not apply)
+# features = Seq of feature identities; cite(f, i) = identity of the i-th cited reference of feature f (before the
+# pass); ncit(f) = number of citation entries; the texts written by the pass: WRITTEN : Array f (Array i String).
+W2 = tm.arr_sort(INT, tm.arr_sort(INT, STR))
+
+
+def cite(f, i):
+    return tm.app("cite", INT, f, i)
+
+
+def ncit(f):
+    return tm.app("ncit", INT, f)
+
+
+def mk_citfeature(st, fid):
+    f = VObj("CitFeature")
+    st.set_inplace(f, "ident", VT(fid))
+    q = VObj("QualDictIdx")
+    st.set_inplace(q, "ident", VT(fid))
+    st.set_inplace(f, "qualifiers", q)
+    return f
+
+
+def km_qidx_get(ex, st, fr, self, args, kwargs):
+    if _const_key(args[0]) != "citation":
+        raise Unsupported("qualifiers.get(%r)" % (args[0],))
+    o = VObj("CitListIdx")
+    return [(st.set(o, "ident", st.get(self, "ident")), "ok", o)]
+
+
+def km_qidx_getitem(ex, st, fr, self, args, kwargs):
+    return km_qidx_get(ex, st, fr, self, args, kwargs)
+
+
+def km_clidx_setitem(ex, st, fr, self, args, kwargs):
+    idx, v = args
+    if not (isinstance(idx, VT) and idx.t.sort == INT and isinstance(v, VT) and v.t.sort == STR):
+        raise Unsupported("citation list store %r" % (args,))
+    fid = st.get(self, "ident").t
+    w = st.ghost["WRITTEN"]
+    st = st.fork()
+    st.ghost["WRITTEN"] = tm.store(w, fid, tm.store(tm.select(w, fid), idx.t, v.t))
+    st.ghost["written_log"] = st.ghost.get("written_log", ()) + ((fid, idx.t),)
+    return [(st, "ok", NONE)]
+
+
+def km_symlist_index(ex, st, fr, self, args, kwargs):
+    """list.index(x): the least position holding x; ValueError when absent (D-LIST)"""
+    R = st.get(self, "seq").t
+    x = ex.models.as_elem(ex, st, args[0], tm.elem_sort(R.sort))
+    present = T("seq.contains", (R, tm.sequnit(x)), BOOL)
+    j = tm.fresh("pos", INT)
+    t = tm.V("t_", INT)
+    s_ok = st.assume(present, tm.le(0, j), tm.lt(j, tm.seqlen(R)), tm.eq(tm.seqnth(R, j), x),
+                     tm.forall_range(t, 0, j, tm.ne(tm.seqnth(R, t), x)))
+    return ex.raise_(st.assume(tm.not_(present)), "ValueError") + [(s_ok, "ok", VT(j))]
+
+
+def km_symlist_contains(ex, st, fr, self, args, kwargs):
+    R = st.get(self, "seq").t
+    x = ex.models.as_elem(ex, st, args[0], tm.elem_sort(R.sort))
+    return [(st, "ok", VT(T("seq.contains", (R, tm.sequnit(x)), BOOL)))]
+
+
+M.KIND_METHODS.update({
+    ("QualDictIdx", "get"): km_qidx_get,
+    ("QualDictIdx", "__getitem__"): km_qidx_getitem,
+    ("CitListIdx", "__setitem__"): km_clidx_setitem,
+    ("symlist", "index"): km_symlist_index,
+    ("symlist", "__contains__"): km_symlist_contains,
+})
